@@ -47,6 +47,14 @@ Definition run (inp : list Z) : list Z :=
           0 :: eK L (@kmul (GRS L) (gofq L p) (ginv L (power a)))
             ++ earr L (normalize_power (S := GRS L) (fun _ => gofq L s) (ginv L) a (gofq L p))
       | None => emalformed end
+    else if op =? 3 then      (* normalize_power including the calls whose result is not finite *)
+      match pall (a <- parr L ;; p <- pQ ;; s <- pQ ;; pret (a, p, s)) rest with
+      | Some (a, p, s) =>
+          match normalize_power_checked (S := GRS L) (fun _ => gofq L s) (ginv L) (fun x => forallb cq_is0 x) a p with
+          | None => [0; 0]
+          | Some b => 0 :: 1 :: earr L b
+          end
+      | None => emalformed end
     else emalformed
   | _ => emalformed
   end.
